@@ -3,6 +3,7 @@
     Model: GridEdit.v (t2grid edit state machine).  Invariant: Inv.v. *)
 From Coq Require Import Ascii String List Bool PArith NArith FMapPositive Permutation.
 From PTBase Require Import Exn PyStr.
+From Gen Require Import GenFlags.
 From P Require Import Assoc GridEdit GridLemmas Inv InvRock InvBlock InvConn InvRename InvReorder InvMinc InvAdd InvEmbed InvDec Reach Witness.
 Import ListNotations.
 Open Scope list_scope.
